@@ -5,7 +5,7 @@
 (* Event fields: op, w (window: abs, H0, V0), a (arguments), o (outcome:   *)
 (* "ok" / "err" / "panic"), r (result, projected).                         *)
 (***************************************************************************)
-EXTENDS Neighbour
+EXTENDS Neighbour, Keys
 
 \* ---- generic helpers ------------------------------------------------------
 IsSeq(x) == x = <<>> \/ DOMAIN x = 1..Len(x)     \* used only on values known to be lists
@@ -150,6 +150,109 @@ X_Hier(e) == /\ Ok(e)
              /\ e.r.zoomed = <<Origin>>                       \* zoom-out of the fine ID is the coarse ID
              /\ e.r.ov = <<TRUE, TRUE>>                       \* and they overlap, either order
 
+\* ---- C11 ------------------------------------------------------------------
+RECURSIVE SumLens(_)
+SumLens(gs) == IF gs = <<>> THEN 0 ELSE Len(gs[1].pairs) + SumLens(Tail(gs))
+AllPairs(gs) == UNION {SetOfSeq(gs[i].pairs) : i \in 1..Len(gs)}
+
+Exp_ExtToQK(e) == UNION {PairsOfId(s, e.a.hz, e.a.vz) : s \in SetOfSeq(e.a.ids)}
+X_ExtToQK(e) ==
+  IF QuadZoomOk(e.a.hz, RealV(e, e.a.vz))
+  THEN /\ Ok(e) /\ e.a.kept
+       /\ \A i \in 1..Len(e.r) :                       \* every group echoes the request
+             e.r[i].hz = e.a.hz /\ e.r[i].vz = e.a.vz /\ e.r[i].echo /\ e.r[i].pairs # <<>>
+       /\ Cardinality(AllPairs(e.r)) = SumLens(e.r)    \* no pair twice across all groups
+       /\ AllPairs(e.r) = Exp_ExtToQK(e)               \* = per-axis zoom change of the inputs
+  ELSE Err(e) /\ e.r = <<>>
+
+Exp_QKToExt(e) ==
+  UNION {IdsOfPair(q[2], q[3], q[4], e.a.hz, e.a.vz) : q \in SetOfSeq(e.a.keys)}
+X_QKToExt(e) ==
+  IF ZoomOk(e.a.hz) /\ ZoomOk(RealV(e, e.a.vz))
+     /\ \A q \in SetOfSeq(e.a.keys) : QuadZoomOk(q[1], RealV(e, q[3]))
+  THEN Ok(e) /\ ListIsSet(e.r, Exp_QKToExt(e))
+  ELSE Err(e) /\ e.r = <<>>
+\* spatial-ID form: results are <<z, xb, yb, z, f>> (parsed from z/f/x/y)
+X_QKToSp(e) ==
+  IF ZoomOk(e.a.hz) /\ \A q \in SetOfSeq(e.a.keys) : QuadZoomOk(q[1], RealV(e, q[3]))
+  THEN Ok(e) /\ ListIsSet(e.r, Exp_QKToExt(e)) /\ e.a.hz = e.a.vz
+  ELSE Err(e) /\ e.r = <<>>
+
+\* ---- C12 ------------------------------------------------------------------
+X_ZToKey(e) == /\ e.o \in {"ok", "err"}
+               /\ ZK_Accept(e.a.f, e.a.zi, e.a.zo, e.a.E, e.a.O, Err(e), e.r[1], e.r[2])
+X_KeyToZ(e) == /\ e.o \in {"ok", "err"}
+               /\ KZ_Accept(e.a.k, e.a.kz, e.a.zo, e.a.E, e.a.O, Err(e), e.r[1], e.r[2])
+Band_ZToKey(e) == [exact |-> <<ZK_XMin(e.a.f, e.a.zi, e.a.zo, e.a.E, e.a.O), ZK_XMax(e.a.f, e.a.zi, e.a.zo, e.a.E, e.a.O)>>,
+                   widened |-> <<ZK_WMin(e.a.f, e.a.zi, e.a.zo, e.a.E, e.a.O), ZK_WMax(e.a.f, e.a.zi, e.a.zo, e.a.E, e.a.O)>>,
+                   sourceValid |-> SourceValid(e.a.f, e.a.zi)]
+Band_KeyToZ(e) == [exact |-> <<KZ_XMin(e.a.k, e.a.kz, e.a.zo, e.a.E, e.a.O), KZ_XMax(e.a.k, e.a.kz, e.a.zo, e.a.E, e.a.O)>>,
+                   widened |-> <<KZ_WMin(e.a.k, e.a.kz, e.a.zo, e.a.E, e.a.O), KZ_WMax(e.a.k, e.a.kz, e.a.zo, e.a.E, e.a.O)>>,
+                   keyValid |-> KeyValid(e.a.k, e.a.kz)]
+
+\* ---- altitude-key groups (C11 structure + C12 band per ID) -------------------
+PerZK(e, i) == LET s == e.a.ids[i]  p == e.a.per[i] IN
+   p[1] # "panic" /\ ZK_Accept(s[5], s[4], e.a.az, e.a.E, e.a.O, p[1] = "err", p[2], p[3])
+Exp_ExtToQKAlt(e) ==
+  UNION {{<<QuadOfBits(t[1], t[2]), k>> :
+             t \in HorizontalZoomBits(e.a.ids[i][2], e.a.ids[i][3], e.a.hz),
+             k \in e.a.per[i][2]..e.a.per[i][3]} : i \in 1..Len(e.a.ids)}
+X_ExtToQKAlt(e) ==
+  LET n == Len(e.a.ids)
+      zoomsOk == QuadZoomOk(e.a.hz, e.a.az) /\ \A i \in 1..n : ZoomOk(e.a.ids[i][1]) /\ ZoomOk(e.a.ids[i][4])
+      anyErr == \E i \in 1..n : e.a.per[i][1] = "err"
+  IN  /\ \A i \in 1..n : PerZK(e, i)                       \* every per-ID range is inside the C12 band
+      /\ IF ~zoomsOk \/ anyErr THEN Err(e) /\ e.r = <<>>     \* all or nothing
+         ELSE /\ Ok(e) /\ e.a.kept
+              /\ \A i \in 1..Len(e.r) : /\ e.r[i].hz = e.a.hz /\ e.r[i].az = e.a.az
+                                         /\ e.r[i].E = e.a.E /\ e.r[i].O = e.a.O /\ e.r[i].pairs # <<>>
+              /\ Cardinality(AllPairs(e.r)) = SumLens(e.r)
+              /\ AllPairs(e.r) = Exp_ExtToQKAlt(e)
+
+\* ---- C13 ------------------------------------------------------------------
+PerKZ(e, i) == LET x == e.a.tiles[i]  p == e.a.per[i] IN
+   p[1] # "panic" /\ KZ_Accept(x[5], x[4], e.a.ovz, e.a.E, e.a.O, p[1] = "err", p[2], p[3])
+Exp_TilesToExt(e) ==
+  UNION {{<<e.a.tiles[i][1], e.a.tiles[i][2], e.a.tiles[i][3], e.a.ovz, z>> :
+             z \in e.a.per[i][2]..e.a.per[i][3]} : i \in 1..Len(e.a.tiles)}
+TilesValid(e) == /\ ZoomOk(e.a.ovz)
+                 /\ \A i \in 1..Len(e.a.tiles) : ZoomOk(e.a.tiles[i][1]) /\ e.a.per[i][1] = "ok"
+X_TilesToExt(e) ==
+  /\ \A i \in 1..Len(e.a.tiles) : PerKZ(e, i)
+  /\ IF TilesValid(e) THEN Ok(e) /\ ListIsSet(e.r, Exp_TilesToExt(e))   \* footprint kept, requested vertical zoom, no duplicates
+     ELSE Err(e) /\ e.r = <<>>                                           \* no partial result
+\* expansion (C10) on bit sequences
+ExpandBits(s) == LET m == MaxOf(s[1], s[4]) IN
+  {<<m, t[1], t[2], m, g[2]>> : t \in HorizontalZoomBits(s[2], s[3], m), g \in VerticalZoomSet(s[4], s[5], m)}
+Exp_TilesToSp(e) == UNION {ExpandBits(s) : s \in Exp_TilesToExt(e)}
+X_TilesToSp(e) ==
+  /\ \A i \in 1..Len(e.a.tiles) : PerKZ(e, i)
+  /\ IF TilesValid(e) THEN Ok(e) /\ SetOfSeq(e.r) = Exp_TilesToSp(e)
+     ELSE Err(e) /\ e.r = <<>>
+
+\* ---- C17 ------------------------------------------------------------------
+Exp_BitFwd(e) ==
+  {<<QuadOfBits(t[1], t[2]), k>> :
+      t \in HorizontalZoomBits(e.a.id[2], e.a.id[3], e.a.hz),
+      k \in BitCell(e.a.lo, e.a.vz, e.a.mn, e.a.mx)..BitCell(e.a.hi, e.a.vz, e.a.mn, e.a.mx)}
+X_BitFwd(e) ==
+  IF e.a.mx < e.a.mn THEN Err(e)
+  ELSE /\ Ok(e)
+       /\ \A i \in 1..Len(e.r) : e.r[i].hz = e.a.hz /\ e.r[i].vz = e.a.vz /\ e.r[i].echo
+       /\ Cardinality(AllPairs(e.r)) = SumLens(e.r)
+       /\ AllPairs(e.r) = Exp_BitFwd(e)
+       /\ \A p \in AllPairs(e.r) : 0 <= p[2] /\ p[2] <= Pow2(e.a.vz) - 1     \* always inside the subdivision
+Exp_BitBack(e) ==
+  LET q == e.a.key  span == e.a.mx - e.a.mn
+      loN == e.a.mn * Pow2(q[3]) + q[4] * span
+      sh == e.a.ovz - 25 - e.a.S - q[3]
+      fLo == ArithShift(loN, sh)  fHi == ArithShift(loN + span, sh)
+  IN  {<<e.a.hz, t[1], t[2], e.a.ovz, g>> :
+          t \in HorizontalZoomBits(XBitsOfQuad(q[2]), YBitsOfQuad(q[2]), e.a.hz), g \in fLo..fHi}
+X_BitBack(e) ==
+  IF e.a.mx < e.a.mn THEN Err(e) /\ e.r = <<>>
+  ELSE Ok(e) /\ ListIsSet(e.r, Exp_BitBack(e))
+
 \* ---- dispatch -------------------------------------------------------------
 Explains(e) ==
   /\ e.bad = ""
@@ -179,6 +282,16 @@ Explains(e) ==
       [] e.op \in {"CentreExt", "CentreSp"} -> X_Centre(e)
       [] e.op = "Face"                 -> X_Face(e)
       [] e.op = "Hier"                 -> X_Hier(e)
+      [] e.op \in {"ExtToQK", "SpToQK"} -> X_ExtToQK(e)
+      [] e.op = "QKToExt"              -> X_QKToExt(e)
+      [] e.op = "QKToSp"               -> X_QKToSp(e)
+      [] e.op = "ZToKey"               -> X_ZToKey(e)
+      [] e.op = "KeyToZ"               -> X_KeyToZ(e)
+      [] e.op = "ExtToQKAlt"           -> X_ExtToQKAlt(e)
+      [] e.op = "TilesToExt"           -> X_TilesToExt(e)
+      [] e.op = "TilesToSp"            -> X_TilesToSp(e)
+      [] e.op = "BitFwd"               -> X_BitFwd(e)
+      [] e.op = "BitBack"              -> X_BitBack(e)
       [] OTHER -> FALSE
 
 \* what the specification expected (diagnostics for a rejected line)
@@ -209,6 +322,15 @@ Expected(e) ==
     [] e.op \in {"CentreExt", "CentreSp"} -> [cu |-> CentreU(e.a.id), ca |-> CentreA(e.a.id), back |-> <<e.a.id>>]
     [] e.op = "Face"                 -> "shared corners must be bit-identical"
     [] e.op = "Hier"                 -> "coarse = zoomed = ancestor(fine), overlapping"
+    [] e.op \in {"ExtToQK", "SpToQK"} -> Exp_ExtToQK(e)
+    [] e.op \in {"QKToExt", "QKToSp"} -> Exp_QKToExt(e)
+    [] e.op = "ZToKey"               -> Band_ZToKey(e)
+    [] e.op = "KeyToZ"               -> Band_KeyToZ(e)
+    [] e.op = "ExtToQKAlt"           -> Exp_ExtToQKAlt(e)
+    [] e.op = "TilesToExt"           -> Exp_TilesToExt(e)
+    [] e.op = "TilesToSp"            -> Exp_TilesToSp(e)
+    [] e.op = "BitFwd"               -> Exp_BitFwd(e)
+    [] e.op = "BitBack"              -> Exp_BitBack(e)
     [] OTHER -> "no-spec-operator"
 
 \* ---- machine events (histories) -------------------------------------------
